@@ -372,7 +372,7 @@ class Facts:
             seen.add(x)
             st += sorted(getattr(self, "_inl_children", {}).get(x, ()))      # helpers inlined into a nested closure
             for c in self.children(x):
-                out.append(self.inlined(c) if c.kind == "closure" else c)
+                out.append(self.inlined(c) if c.kind in ("closure", "coroutine") else c)
                 st.append(c.id)
         return out
 
